@@ -94,6 +94,8 @@ class Types:
             return TPtr(self._parse(s[:-1].strip()))
         if s in ("_Bool", "bool"):
             return TInt(8, False, is_bool=True)
+        if s in ("va_list", "__builtin_va_list", "__gnuc_va_list", "struct __va_list_tag"):
+            return TArr(TInt(8, False), 24)          # opaque: only its address is passed around (va_start / v*printf / va_end)
         if s == "void":
             return TVoid()
         if s in BASE:
